@@ -13,7 +13,7 @@ from exact import PS, Cx
 from c07 import dy, mxlit, serlit, obj_mats, ps_residual, scale_of
 
 PID = 'C08'
-IMPORTS = 'QcField Sums Series Matrix QRTall'
+IMPORTS = 'QcField Sums Series Matrix QRTall Eigh'
 DEFS = """
 Definition mxs_close (tol : Qc) (n m : nat) (a b : seq (mx K)) : bool :=
   (size a == size b) && all (fun ab => Qc_allclose tol (flatten (mkmx n m (mxget ab.1))) (flatten (mkmx n m (mxget ab.2)))) (zip a b).
@@ -146,17 +146,24 @@ def main(tier, seed):
         a = numpy.zeros((D, P, n, m))
         for idx in numpy.ndindex(*a.shape):
             a[idx] = dy(rngl)
-        if rngl.random() < 0.3:
-            # whole higher coefficients that vanish in a direction (A(t) = A_0 + A_2 t^2): kernels that shortcut on "unperturbed" input
+        # whole higher coefficients that vanish in a direction: kernels that shortcut on "unperturbed" input.  Scheduled, not left to
+        # chance: every 4th iteration the FIRST order vanishes in direction 0 while higher orders do not (A(t) = A_0 + A_2 t^2 + ...),
+        # every other 4th iteration random blocks vanish
+        if zero_mode[0] == 'first' and D >= 3:
+            a[1, 0] = 0
+            rep.count('zero coefficient blocks', 'first order of direction 0')
+        elif zero_mode[0] == 'random':
             for p_ in range(P):
                 for d_ in range(1, D):
                     if rngl.random() < 0.5:
                         a[d_, p_] = 0
-            rep.count('zero coefficient blocks', True)
+            rep.count('zero coefficient blocks', 'random')
         return a
 
-    for _ in range(N):
-        D = rng.randint(1, Dmax); P = rng.randint(1, 2)
+    zero_mode = [None]
+    for it_ in range(N):
+        zero_mode[0] = {1: 'first', 3: 'random'}.get(it_ % 4)
+        D = rng.randint(3 if zero_mode[0] == 'first' else 1, Dmax); P = rng.randint(1, 2)
         tol = TOL * 4 ** D          # observed residuals are ~1e-14; a wrong coefficient is O(1e-3) or more
         # ================================================================= QR (reduced)
         for shape_kind in ('square', 'tall', 'wide'):
@@ -242,7 +249,13 @@ def main(tier, seed):
         meta = dict(op='cholesky', n=n, D=D, P=P, A=Ad.tolist())
         case('cholesky', meta, D >= 2 and n >= 2)
         try:
-            Ld = numpy.asarray(algopy.cholesky(mkU(Ad)).data)
+            if it_ % 2 == 1:
+                # call form with a caller-supplied result buffer holding stale non-zero content (a reused preallocated result)
+                buf = algopy.UTPM(7.25 + numpy.arange(Ad.size, dtype=float).reshape(Ad.shape) / 3)
+                algopy.UTPM.cholesky(mkU(Ad), out=buf); Ld = numpy.asarray(buf.data)
+                rep.count('call form', 'cholesky(A, out=prefilled buffer)')
+            else:
+                Ld = numpy.asarray(algopy.cholesky(mkU(Ad)).data)
             Ao, Lo = obj_mats(Ad), obj_mats(Ld)
             r1 = max(ps_residual([numpy.dot(Lo[p], Lo[p].T) - Ao[p]]) for p in range(P))
             r3 = struct_residual(Ld, numpy.triu(numpy.ones((n, n), dtype=bool), 1))
@@ -313,6 +326,19 @@ def main(tier, seed):
                             viol(entry, '%s (n=%d, D=%d): factors differ from the (model-checked) factors of lu by %.2g (L), %.2g (U)' % (entry, n, D, dl, du), dict(meta, op=entry))
         except Exception as e:
             viol('lu:exception:%s' % type(e).__name__, 'lu (n=%d) raises %r' % (n, e), meta, exc=repr(e))
+        # ================================================================= eigh: every (degree, splitting order) pair once per run
+        if not getattr(rep, '_split_sweep_done', False):
+            rep._split_sweep_done = True
+            for De in range(3, 8 if tier == 'quick' else 9):
+                for s_ in range(1, De):
+                    n_ = 2 + (De + s_) % 2; Pe = 1 + (s_ % 2)
+                    Ae = numpy.zeros((De, Pe, n_, n_))
+                    for p in range(Pe):
+                        Ae[:, p] = split_at_fn(rng, n_, De, s_)
+                    meta = dict(op='eigh', spectrum='split-sweep', split_at=s_, n=n_, D=De, P=Pe, A=Ae.tolist())
+                    case('eigh:split-sweep', meta, True)
+                    rep.count('eigh:split (D, s)', '%d,%d' % (De, s_))
+                    check_eigh(algopy, rep, viol, Ae, meta, 'split-late', s_)
         # ================================================================= eigh: distinct / exactly repeated eigenvalues
         for spec in ('distinct', 'repeated', 'split-late'):
             n = rng.randint(2, 4)
@@ -368,6 +394,17 @@ def main(tier, seed):
                         bad = 'lambda_0 differs from numpy.linalg.eigh'; break
                 if bad:
                     viol('eigh:%s%s' % (spec, ':split2' if split_at else ''), 'eigh (%s eigenvalues, n=%d, D=%d): %s' % (spec, n, D, bad), meta)
+                elif spec == 'distinct' and n <= 3:
+                    # the proved kernel (Eigh.v: eighU, C08_eighM_spec / C08_eighU_refines) from the same base-point data the implementation uses
+                    for p in range(P):
+                        l0 = ld[0, p]; Q0 = Qd[0, p]
+                        H = numpy.array([[0.0 if r == c else 1.0 / (l0[c] - l0[r]) for c in range(n)] for r in range(n)])
+                        EU = '(eighU %d %s %s %s %s)' % (n, serlit(Ad, p), mxlit(Q0), mxlit(numpy.diag(l0)), mxlit(H))
+                        Ldiag = numpy.array([[numpy.diag(ld[d_, p]) for p_ in [p]] for d_ in range(D)])
+                        sc_e = F(scale_of(Ad) ** 2 * (1 + float(numpy.max(numpy.abs(H)))) ** D)
+                        terms.append('(mxs_close %s %d %d [seq ql.1 | ql <- %s] %s && mxs_close %s %d %d [seq ql.2 | ql <- %s] %s)'
+                                     % (qlit(F(tol) * sc_e), n, n, EU, serlit(Qd, p), qlit(F(tol) * sc_e), n, n, EU, serlit(Ldiag, 0)))
+                        metas.append(dict(model='eighU', n=n, D=D, direction=p))
             except Exception as e:
                 viol('eigh:%s:exception:%s' % (spec, type(e).__name__), 'eigh (%s, n=%d, D=%d) raises %r' % (spec, n, D, e), meta, exc=repr(e))
         # ================================================================= eig (D <= 2)
